@@ -411,7 +411,8 @@ class Analyzer:
                     bad = "os.urandom"
                 elif path[-1] in ("default_rng", "Generator", "RandomState", "SeedSequence"):
                     bad = "a private numpy generator is not seeded by Task.seed"
-                elif path[-2:] == ["random", "seed"] and not where.endswith("OptimizationAbstract.optimize"):
+                elif path[-2:] == ["random", "seed"] and not (where.endswith("OptimizationAbstract.optimize") or
+                                                            where.endswith("OptimizationAbstract._init_agent_seeded")):
                     bad = "re-seeding the global RNG outside optimize()"
                 elif path in (["id"], ["hash"]):
                     bad = f"{path[0]}() depends on the process"
